@@ -285,12 +285,17 @@ def rule_twin(chk):
             attrs = {'dim': 2, 'fac': 1.5, 'radius_scale': 3.0}
             kern = EM.mock(name='Foo', __dict__=dict(attrs), **attrs)
             got = EM.call_function(it, KER, 'get_compiled_kernel', kern)
+            # a second kernel of the same class with other attributes (another dimension) gets a twin of its own
+            attrs2 = {'dim': 3, 'fac': 0.25, 'radius_scale': 3.0}
+            kern2 = EM.mock(name='Foo', __dict__=dict(attrs2), **attrs2)
+            got2 = EM.call_function(it, KER, 'get_compiled_kernel', kern2)
+            second_ok = isinstance(got2, tuple) and got2[:2] == ('made', 'FooWrapper') and len(got2[2]) == 1 and isinstance(got2[2][0], tuple) and got2[2][0][3] == attrs2
         finally:
             AI.ATTR_HOOKS.remove(hook)
             AI.BUILTINS['getattr'] = saved_g
         ok = isinstance(got, tuple) and got[:2] == ('made', 'FooWrapper') and len(got[2]) == 1 and not got[3] and isinstance(got[2][0], tuple) and got[2][0][:2] == ('made', 'Foo') \
-            and not got[2][0][2] and got[2][0][3] == attrs
-        why = repr(got)[:200]
+            and not got[2][0][2] and got[2][0][3] == attrs and second_ok
+        why = repr(got)[:160] + ('; a second kernel of the same class with dim=3, fac=0.25 gets %r' % (got2,))[:200]
     except (AI.Unsupported, AI.Raised) as e:
         why = 'not interpretable on the model: %s' % e
     chk.decide(ok, 'compiled-twin', 'get_compiled_kernel', node=gk, file=KER, func='get_compiled_kernel',
